@@ -1,9 +1,6 @@
 //! vprim: checks that need only the asn1rs runtime primitives (no compiled schemas):
 //! C10 (PER primitives), C11 (bit buffers), C20 (DER primitives).
-mod c10;
-mod c11;
-mod c20;
-pub mod util;
+use vprim::*;
 
 fn main() {
     vcore::harness::install_quiet_panic_hook();
